@@ -25,8 +25,10 @@
        BaseName.line/column/name, get_definition_start_position/_end_position (function
        and class: last leaf before the newline), get_line_code(before, after).
    Deviations of the code, modelled as they are (each is named where it is modelled):
-     DEV-DunderParam: _ParamMixin.get_public_name strips a leading "__" from parameter
-       names, so Name.name differs from the text at Name.line/column (known finding).
+     DEV-DunderParam (repaired in /repo 7f3412e): get_public_name used to strip a leading
+       "__" from every parameter name, so Name.name differed from the text at
+       Name.line/column; now it does so only in stubs.  The old behaviour is kept as the
+       what-if StripDunder = TRUE, under which TextAtPos must fail (sensitivity run).
      DEV-NoFinalNewline: a buffer without final line terminator has no newline leaf and the
        last simple_stmt collapses into its child (ranges end at the last token).
      DEV-FormFeedIndent: parso's tokenizer counts a form feed at line start as one column of
@@ -44,6 +46,7 @@ CONSTANTS TplLo, TplHi,  \* templates allowed for the first statement (partition
           MaxMods1,      \* layout modifications allowed in a 1-statement buffer
           MaxMods2,      \* ... in a longer buffer
           NNames,        \* size of the identifier pool used (4, or 5 = with "__a")
+          StripDunder,   \* what-if: the code before 7f3412e (get_public_name strips "__" outside stubs too)
           EmitMod, EmitRem
 
 ---------------------------------------------------------------------------
@@ -491,8 +494,9 @@ Layout(st, md, tb, fin) ==
 ---------------------------------------------------------------------------
 (* DESIGN, API level: Script.get_names(all_scopes=True, definitions=True, references=True)
    and the accessors of every returned Name *)
-\* DEV-DunderParam: _ParamMixin.get_public_name
-PublicName(li, text) == IF li.pname /\ Len(text) >= 2 /\ text[1] = US /\ text[2] = US
+\* BaseTreeParamName.get_public_name: the buffer is never a stub, so the name is the token's text;
+\* what-if StripDunder: the behaviour before the repair (DEV-DunderParam)
+PublicName(li, text) == IF StripDunder /\ li.pname /\ Len(text) >= 2 /\ text[1] = US /\ text[2] = US
                         THEN SubSeq(text, 3, Len(text)) ELSE text
 
 RECURSIVE InsertByPos(_, _)
@@ -594,16 +598,14 @@ RefToksFrom(g) == IF g > Len(lay.leaves) THEN <<>>
 RefToks == RefToksFrom(1)
 
 (* Design |= Reference *)
-KnownDunderParam(r) == LeafInfo(r.g).pname /\ Len(TokText(r.g)) >= 2 /\ TokText(r.g)[1] = US /\ TokText(r.g)[2] = US
 T  == lay.text
 ST == lay.starts
 SplitLinesOK   == out.modelled => out.lines = RefLines(T, ST)
 NamesOK        == out.modelled => LET toks == RefToks IN ClBijection(toks, out.names) /\ ClIsDef(toks, out.names)
 NamesBijection == out.modelled => ClBijection(RefToks, out.names)
 IsDefOK        == out.modelled => ClIsDef(RefToks, out.names)
-TextAtPosStrict == out.modelled => \A i \in 1..Len(out.names) : ClTextAtPos(T, ST, out.names[i])
-TextAtPos      == out.modelled => \A i \in 1..Len(out.names) : KnownDunderParam(out.names[i]) \/ ClTextAtPos(T, ST, out.names[i])
-RangeEncloses  == out.modelled => \A i \in 1..Len(out.names) : KnownDunderParam(out.names[i]) \/ ClRange(T, ST, out.names[i])
+TextAtPos      == out.modelled => \A i \in 1..Len(out.names) : ClTextAtPos(T, ST, out.names[i])
+RangeEncloses  == out.modelled => \A i \in 1..Len(out.names) : ClRange(T, ST, out.names[i])
 LineCodeOK     == out.modelled => \A i \in 1..Len(out.names) : ClLineCode(T, ST, out.names[i])
 \* documented meaning of before/after (not part of the property text; kept apart)
 LineCodeCtxOK  == out.modelled => \A i \in 1..Len(out.names) :
